@@ -20,6 +20,12 @@ const styleA = "\x1b[1m\x1b[38;2;1;2;3ma\x1b[0m"
 const styleSp = "\x1b[48;2;9;9;9m \x1b[0m"
 
 var sigma6 = []string{"a", "b", " ", "\n", styleA, styleSp}
+
+// legal SGR sequences with colon sub-parameters (curly underline, colon-form colour)
+const styleColon = "\x1b[4:3mc\x1b[0m"
+const styleColon2 = "\x1b[1m\x1b[38:2::1:2:3md\x1b[0m"
+
+var sigmaC = []string{"a", " ", "\n", styleColon, styleColon2, "b"}
 var sigma9 = []string{"a", " ", "\n", styleA, "字", "\u00a0", "e", "\u0301", "\t"}
 
 type cell = oracle.Cell
@@ -102,6 +108,25 @@ func safeCall(f func() string) (out string, pan string) {
 	return f(), ""
 }
 
+// foreign: the output carries an SGR parameter string this machine has no name for and that
+// the input did not carry either.
+func foreign(in string, unknown []string) bool {
+	if len(unknown) == 0 {
+		return false
+	}
+	_, _, inUnknown := oracle.Cells(in)
+	have := map[string]bool{}
+	for _, u := range inUnknown {
+		have[u] = true
+	}
+	for _, u := range unknown {
+		if !have[u] {
+			return true
+		}
+	}
+	return false
+}
+
 func (c *checker) wrap(in string, inC []cell, w int) {
 	out, pan := safeCall(func() string { return ansi.Wrap(in, w) })
 	if pan != "" {
@@ -109,7 +134,7 @@ func (c *checker) wrap(in string, inC []cell, w int) {
 		return
 	}
 	outC, final, unk := oracle.Cells(out)
-	if !final.Neutral() || len(unk) > 0 {
+	if !final.Neutral() || foreign(in, unk) {
 		c.fail("wrap:style-damaged", "Wrap", in, out, "output leaves attributes active or contains foreign SGR", w)
 		return
 	}
@@ -489,7 +514,7 @@ func (c *checker) wideOne(in string) (n int64) {
 func main() {
 	r := ev.New("C13", "exploration",
 		"every string of cells over Σ6={a,b,space,newline,styled a,styled space} up to the length bound and over "+
-			"Σ9={a,space,newline,styled a,wide 字,NBSP,e,combining accent,tab} up to a smaller bound, each run through Wrap/DumbWrap/Pad at "+
+			"Σ9={a,space,newline,styled a,wide 字,NBSP,e,combining accent,tab} up to a smaller bound and over ΣC={a,b,space,newline,c with a curly underline ESC[4:3m,d with a colon-form colour} one shorter than Σ6, each run through Wrap/DumbWrap/Pad at "+
 			"widths 1..W (W=5 quick, 7 thorough), Indent with 3 prefixes x includeFirst, Snip at widths 1..4 x heights 1..3 x 2 ellipses, SetLength at 1..W; plus every function at 13 widths around 80, 160, 256, 1000 and 4096 on all strings of length <=2 and 8 long strings; every text of length <=4 over {a,1,2,space} at 12 widths made of the same digits, visited in two orders; "+
 			"distinct_nontrivial counts distinct input strings of length >= 2 that contain whitespace and a visible cell")
 	c := &checker{r}
@@ -524,7 +549,7 @@ func main() {
 				for code := lo; code < hi; code++ {
 					s := build(alpha, code, n)
 					c.one(s, maxWidth)
-					if n >= 2 && strings.ContainsAny(s, " \n") && strings.ContainsAny(s, "ab字e") {
+					if n >= 2 && strings.ContainsAny(s, " \n") && strings.ContainsAny(s, "abcd字e") {
 						nt++
 					}
 				}
@@ -536,6 +561,7 @@ func main() {
 	}
 	run(sigma6, n6)
 	run(sigma9, n9)
+	run(sigmaC, n6-1)
 	r.Eval(c.wide())
 	r.Eval(c.digits())
 	r.Sample(map[string]any{"input": build(sigma6, 123456, n6), "functions": "Wrap,DumbWrap,Pad w=1..7; Indent; Snip; SetLength"})
